@@ -85,11 +85,26 @@ def histories(ids, d_full, d_max, maxw=3):
                 frontier.append((hist + (op,), nst))
 
 
-def build(hist, n):
+ID_MENU = ['0', "''", '()', 'False', '0.0', '1', '-1', "'a'", "('t', 1)", '2.5', 'frozenset()']
+ID_HISTORIES = [
+    ('create:1:a', 'worker:1', 'use', 'delete:1', 'create:1:b', 'worker:1', 'use'),
+    ('create:1:a', 'create:1:b', 'worker:1', 'use'),
+    ('create:1:a', 'create:2:b', 'worker:1', 'use', 'worker:2', 'use', 'delete:1', 'worker:1'),
+    ('worker:1', 'delete:1', 'create:1:a', 'delete:1', 'delete:1', 'worker:1'),
+]
+
+
+def build(hist, n, idmap=None):
     """-> (script, expectations) ; expectations[i] describes what step i must show."""
-    uid = lambda i: 'h%d-ctx%s' % (n, i)  # noqa
-    sc = []
-    exp = []
+    if idmap is None:
+        uid = lambda i: 'h%d-ctx%s' % (n, i)  # noqa
+        sc = []
+        exp = []
+    else:
+        # raw id values (falsy ones, non-strings): the history gets a server of its own
+        uid = lambda i: {'py': idmap[i]} if i in idmap else 'unknown-%s' % i  # noqa
+        sc = [{'op': 'respawn_server'}]
+        exp = [('any-return', None, 'harness')]
     reg = {}
     ctxvar = {}
     workers = []    # (var, ctx id, variant, alive)
@@ -216,6 +231,14 @@ def run(ctx):
         sc, exp = build(h, n)
         jobs.append({'script': sc})
         plan.append((h, sc, exp))
+    # the values an id can take: falsy ones, numbers, tuples (each history on a server of its own)
+    idh = ID_HISTORIES if ctx.quick else ID_HISTORIES + [h for h in hs if len(h) <= 2]
+    for v in ID_MENU:
+        for h in idh:
+            sc, exp = build(h, 0, idmap={1: v, 2: "'other'"})
+            jobs.append({'script': sc})
+            plan.append((('id=' + v,) + tuple(h), sc, exp))
+    ctx.extra['id_value_histories'] = len(ID_MENU) * len(idh)
     res = land.run_cases(jobs, case_timeout=240)
     harness = 0
     for (h, sc, exp), obs in zip(plan, res):
@@ -228,7 +251,7 @@ def run(ctx):
                 harness += 1
                 ctx.extra.setdefault('harness_anomalies', []).append(str(detail)[:200])
                 continue
-            ctx.violation('SEQ/contexts/%s' % what, {'history': list(h)}, detail, 'dictionary model of the context table', engine='SEQ')
+            ctx.violation('SEQ/contexts/%s%s' % (what, '/raw-id' if h and str(h[0]).startswith('id=') else ''), {'history': list(h)}, detail, 'dictionary model of the context table', engine='SEQ')
     ctx.sample({'history': list(plan[len(plan) // 2][0]), 'script': plan[len(plan) // 2][1]})
     ctx.extra['histories'] = len(hs)
     if harness > 5:
@@ -237,7 +260,10 @@ def run(ctx):
 
 def replay(ctx, rec):
     h = tuple(rec['case']['history'])
-    sc, exp = build(h, 0)
+    if h and h[0].startswith('id='):
+        sc, exp = build(h[1:], 0, idmap={1: h[0][3:], 2: "'other'"})
+    else:
+        sc, exp = build(h, 0)
     obs = land.run_cases([{'script': sc}], case_timeout=240)[0]
     for op, e, st in zip(sc, exp, obs.get('steps', [])):
         print(op['op'], e[2], str(st)[:150])
